@@ -816,3 +816,35 @@ func (c *Ctx) vrejectClosed(v vexit, patterns ...string) bool {
 
 // vpos is the source position of the innermost return.
 func (c *Ctx) vpos(v vexit) string { return c.ipos(v.Instr) }
+
+// tripCount returns the number of iterations of a counted loop from the
+// canonical literal of its continue-edge: ind<+s>(a) < n, ind<-s>(a) >= 0
+// (ana/canon.go shifts descending counters to a comparison with 0), and the
+// `!=` forms with unit step. ok is false for any other shape.
+func tripCount(lit *ana.Term) (int64, bool) {
+	op, l, r, ok := ana.IsCmp(lit)
+	if !ok || l.Op != "ind" || len(l.Args) != 1 {
+		return 0, false
+	}
+	a, okA := l.Args[0].Int()
+	k, okK := r.Int()
+	if !okA || !okK || len(l.Name) < 2 {
+		return 0, false
+	}
+	s, err := strconv.ParseInt(l.Name[1:], 10, 64)
+	if err != nil || s <= 0 {
+		return 0, false
+	}
+	up := l.Name[0] == '+'
+	switch {
+	case up && op == "<" && k >= a:
+		return (k - a + s - 1) / s, true
+	case !up && op == ">=" && a >= k:
+		return (a-k)/s + 1, true
+	case up && op == "!=" && s == 1 && k >= a:
+		return k - a, true
+	case !up && op == "!=" && s == 1 && a >= k:
+		return a - k, true
+	}
+	return 0, false
+}
